@@ -81,23 +81,13 @@ func runLoc18(t *tree18, fault int) *locRun {
 	inner := buildFS18(t)
 	ffs := newFaultFS(inner, fault)
 	r := &locRun{Fault: fault, inner: inner}
-	func() {
-		defer func() {
-			if rec := recover(); rec != nil {
-				if fsn, ok := rec.(fatalSentinel); ok {
-					r.Cls, r.Msg = kFatal, fsn.msg
-					return
-				}
-				r.Cls, r.Msg = kPanic, fmt.Sprint(rec)
-			}
-		}()
+	r.Cls, r.Msg = runTrapped(func() error {
 		dst, err := localizer.Run(ffs, t.Target, t.Scope, t.NewDir)
-		if err != nil {
-			r.Cls, r.Msg = kErr, err.Error()
-			return
+		if err == nil {
+			r.Dst = dst
 		}
-		r.Cls, r.Dst = kOk, dst
-	}()
+		return err
+	})
 	r.Faulted = ffs.faulted
 	r.Trace = ffs.trace
 	r.NFallible = ffs.nFallible
@@ -465,7 +455,11 @@ func contentTerm(path, content string, tb *tables18, g geo18) string {
 		base := filepath.Base(path)
 		if base == "kustomization.yaml" || base == "kustomization.yml" || base == "Kustomization" {
 			if k, ok := parseKust18([]byte(content)); ok {
-				return "(CKust " + kustTerm(k) + ")"
+				src := ""
+				if rel, err := filepath.Rel(g.absNewDir, path); err == nil {
+					src = filepath.Join(g.absScope, rel)
+				}
+				return fmt.Sprintf("(CKust %d %s)", tb.srcID(src), kustTerm(k))
 			}
 		}
 		rel, err := filepath.Rel(g.absNewDir, path)
@@ -753,23 +747,12 @@ func chartHomes18(t *tree18, initial filesys.FileSystem) map[string][]string {
 	return out
 }
 
-// faultedEvent returns the event that was made to fail (nil when none).
+// faultedEvent returns the event that was made to fail (nil when none): call number = trace index.
 func faultedEvent(r *locRun) *fsEvent {
-	if !r.Faulted {
+	if !r.Faulted || r.Fault < 0 || r.Fault >= len(r.Trace) {
 		return nil
 	}
-	n := 0
-	for i := range r.Trace {
-		e := &r.Trace[i]
-		if e.Op == "Exists" || e.Op == "IsDir" {
-			continue
-		}
-		if n == r.Fault {
-			return e
-		}
-		n++
-	}
-	return nil
+	return &r.Trace[r.Fault]
 }
 
 // laws18 evaluates the property's laws on one run of the implementation.
@@ -782,6 +765,10 @@ func laws18(r *Run, t *tree18, tb *tables18, g geo18, initial []fsEntry, run *lo
 		viol("model-coverage", "C18/unexpected-fs-operation", strings.Join(run.Unexpected, "; "))
 	}
 	fe := faultedEvent(run)
+	// a fault on Exists / IsDir is a FALSE ANSWER the localizer cannot detect (the call has no error
+	// result): confinement and all-or-nothing still apply; the laws about a successful copy, and about
+	// a destination that already existed, are out of domain for that run
+	lied := fe != nil && (fe.Op == "Exists" || fe.Op == "IsDir")
 	// ---- (0) a tree that is valid by construction must localize when nothing fails
 	if run.Fault < 0 && t.ExpectOk {
 		if run.Cls != kOk {
@@ -807,13 +794,13 @@ func laws18(r *Run, t *tree18, tb *tables18, g geo18, initial []fsEntry, run *lo
 		}
 		var a, b []fsEntry
 		for _, e := range initial {
-			if g.fresh && insideDir(g.absNewDir, e.Path) {
+			if (g.fresh || lied) && insideDir(g.absNewDir, e.Path) {
 				continue
 			}
 			a = append(a, e)
 		}
 		for _, e := range run.Final {
-			if g.fresh && insideDir(g.absNewDir, e.Path) {
+			if (g.fresh || lied) && insideDir(g.absNewDir, e.Path) {
 				continue
 			}
 			b = append(b, e)
@@ -869,6 +856,10 @@ func laws18(r *Run, t *tree18, tb *tables18, g geo18, initial []fsEntry, run *lo
 		return
 	}
 	// ---- successful runs
+	if lied {
+		r.Count("law", "success-laws:out-of-domain(undetectable false answer of Exists/IsDir)")
+		return
+	}
 	if fe != nil && fe.Op == "WriteFile" {
 		// every WriteFile of the localizer writes a file the copy needs: a failed one can never be ignored
 		viol("all_or_nothing", "C18/success-despite-failed-write",
